@@ -159,7 +159,8 @@ macro_rules! sealed_float {
                         dir: Ordering::Equal,
                         overflow: false,
                     };
-                    return FloatKind::Finite { neg, conv };
+                    // -0.0 is zero, not a negative number
+                    return FloatKind::Finite { neg: false, conv };
                 }
 
                 let mut src_frac_bits = prec - 1 - exp;
